@@ -333,8 +333,11 @@ def run(ctx):
     for b in bins:
         flat += b + [pad] * (size - len(b))
     trivial = "{| gc_gens := RBPerm [[0]%nat]; gc_start := [0]%Z; gc_exact := true; gc_row := [1]%Z |}"
+    import time as _t
+    _t0 = _t.time()
     bad = ctx.coq_failing("Base Perm Matrix RefBfs RefBfsRun", "", "growth_case", [cases[i] if i is not None else trivial for i in flat],
                           "check_growth_case", "growth", shard=size, timeout=ctx.budget(900, 6000))
+    ctx.cov["timing_s"] = {"verified_bfs_in_coq": round(_t.time() - _t0, 1)}
     ctx.cov["disagreements_checked"] += len(cases)
     ctx.cov["correspondence"]["rows_decided_by_the_verified_bfs"] = len(cases)
     failing = [flat[i] for i in bad if flat[i] is not None]
@@ -353,7 +356,7 @@ def run(ctx):
     # always-on search: naive BFS on the small rows (independent of Coq)
     n_naive = 0
     for i, (case, fns, start, sub, exact, row) in enumerate(metas):
-        if i in failing or sum(sub) > ctx.budget(3000, 30000):
+        if i in failing or sum(sub) > ctx.budget(1000, 30000):
             continue
         sizes, complete = naive_growth(fns, start, naive_cap, len(sub) + 1)
         n_naive += 1
@@ -361,6 +364,7 @@ def run(ctx):
         if not good:
             ctx.violation("property_fails", f"{case['dataset']}[{case['key']}] stores {sub[:12]}; a naive BFS of {case['definition']} gives {sizes[:12]}", dict(case, claim="growth"), True)
     ctx.cov["search"]["rows_rechecked_by_naive_bfs"] = n_naive
+    ctx.cov["timing_s"]["total"] = round(_t.time() - ctx.t0, 1)
     ctx.cov["distribution"]["rows"] = len(rows)
     ctx.cov["distribution"]["datasets"] = len({r[0] for r in rows})
     ctx.cov["documented_order_table"] = {ds: ("per key" if ds != "puzzles_growth" else "2x2x2 constants") for ds in list(DATASETS) + ["puzzles_growth"]}
